@@ -14,7 +14,7 @@ OAL_SCHEMA = {
               'B': [S.at('Id', ID), S.at('N', 'INTEGER'), S.at('A_Id', ID)],
               'L': [S.at('A_Id', ID), S.at('B_Id', ID), S.at('W', 'INTEGER')]},
     'assocs': [S.A('R1', 'B', ['A_Id'], 'MC', 'A', ['Id'], '1C'),
-               S.A('R2', 'A', ['Prev_Id'], '1C', 'A', ['Id'], '1C', sphrase="'succeeds'", tphrase="'precedes'"),
+               S.A('R2', 'A', ['Prev_Id'], '1C', 'A', ['Id'], '1C', sphrase='succeeds', tphrase='precedes'),
                S.A('R3', 'L', ['A_Id'], '1C', 'A', ['Id'], '1'),
                S.A('R3', 'L', ['B_Id'], '1C', 'B', ['Id'], '1')],
     'uniques': {'A': [S.U('I1', 'Id')], 'B': [S.U('I1', 'Id')], 'L': [S.U('I1', 'A_Id', 'B_Id')]},
@@ -141,7 +141,7 @@ class Gen(object):
                 return Un('cardinality', V(s))
             if k == 'neg':
                 return Un(r.choice(['-', '+']), self.maybe_paren(self.expr('int', d + 1)))
-            op = r.choice(['+', '-', '*', '+', '-', '%', '/'])
+            op = r.choice(['+', '-', '*', '+', '-', '%'] + ([] if getattr(self, 'no_division', False) else ['/']))
             if op in ('%', '/'):
                 return Bin(op, self.maybe_paren(self.expr('int', d + 1)), I(r.randint(1, 4)))
             return Bin(op, self.maybe_paren(self.expr('int', d + 1)), self.maybe_paren(self.expr('int', d + 1)))
@@ -419,12 +419,45 @@ class Gen(object):
         if k == 'create_nv':
             return {'t': 'create_nv', 'k': 'A'}
         if k == 'using':
-            return {'t': r.choice(['relate', 'unrelate']), 'a': 'one', 'b': 'other', 'rel': 'R3', 'ph': r.choice(['', "'of'"]),
+            return {'t': r.choice(['relate', 'unrelate']), 'a': 'uno', 'b': 'other', 'rel': 'R3', 'ph': r.choice(['', "'of'"]),
                     'using': 'link'}
         return Assign(Field({'t': 'self'}, 'N'), self.expr('int'))
 
-    def program(self, nstmts=None, final_return=True):
+    def setup(self):
+        """a population built by the program itself: instances, attribute values, links"""
+        r = self.rnd
         body = []
+        As, Bs = [], []
+        for _ in range(r.randint(1, 3)):
+            n = self.fresh('inst:A', 'a')
+            self.ok[-1].add(n)
+            As.append(n)
+            body.append({'t': 'create', 'v': n, 'k': 'A'})
+            if r.random() < 0.8:
+                body.append(Assign(Field(V(n), 'N'), I(r.randint(0, 5))))
+            if r.random() < 0.5:
+                body.append(Assign(Field(V(n), 'S'), Str(r.choice(['a', 'b', 'x y']))))
+            if r.random() < 0.5:
+                body.append(Assign(Field(V(n), 'F'), B(r.random() < 0.5)))
+        for _ in range(r.randint(0, 3)):
+            n = self.fresh('inst:B', 'b')
+            self.ok[-1].add(n)
+            Bs.append(n)
+            body.append({'t': 'create', 'v': n, 'k': 'B'})
+            if r.random() < 0.8:
+                body.append(Assign(Field(V(n), 'N'), I(r.randint(0, 5))))
+            if As and r.random() < 0.8:
+                a = r.choice(As)
+                x, y = (a, n) if r.random() < 0.5 else (n, a)
+                body.append({'t': 'relate', 'a': x, 'b': y, 'rel': 'R1', 'ph': '', 'using': ''})
+        for i in range(len(As) - 1):
+            if r.random() < 0.6:
+                body.append({'t': 'relate', 'a': As[i], 'b': As[i + 1], 'rel': 'R2',
+                             'ph': r.choice(["'precedes'", "'succeeds'"]), 'using': ''})
+        return body
+
+    def program(self, nstmts=None, final_return=True, setup=False):
+        body = self.setup() if setup else []
         for _ in range(nstmts or self.rnd.randint(2, 6)):
             s = self.stmt(0)
             if s is not None:
